@@ -235,6 +235,18 @@ func init() {
 		ext(n, symNum(app))
 	}
 
+	// ---- crypto/rand: fresh environment bytes (not part of the replay script) ----
+	randFill := func(b []value) {
+		for i := range b {
+			b[i] = sym{types.Uint8, eng.fresh(fmt.Sprintf("env:rand_%d", eng.nEnv), 8)}
+		}
+	}
+	ext("crypto/rand.Read", func(fr *frame, args []value) value {
+		b := args[0].([]value)
+		randFill(b)
+		return tuple{len(b), iface{}}
+	})
+
 	// ---- time ----
 	ext("time.Now", func(fr *frame, args []value) value {
 		if eng == nil || !eng.nowSet {
